@@ -60,6 +60,9 @@ def _metadata_alphabet():
         ("q3", {"quadrature_degree": 3}),
         ("q2ra", {"quadrature_degree": 2, "rule": "a"}),
         ("raq2", {"rule": "a", "quadrature_degree": 2}),  # same content, other insertion order
+        # two keys, values permuted together with the insertion order: different content
+        ("q2p4", {"quadrature_degree": 2, "precision": 4}),
+        ("p2q4", {"precision": 2, "quadrature_degree": 4}),
         ("nest1", {"opts": {"a": 1, "b": (1, 2)}}),
         ("nest2", {"opts": {"a": 1, "b": (1, 3)}}),
         ("tup12", {"pts": (1, 2)}),
@@ -418,7 +421,7 @@ def slot_patterns(n):
 
 ALL_T = list(range(len(TYPES)))
 ALL_S = list(range(len(SIDS)))
-MD_SMALL = ["none", "q2", "q2ra", "tup12", "lst12", "L1", "L2"]
+MD_SMALL = ["none", "q2", "q2ra", "q2p4", "p2q4", "tup12", "lst12", "L1", "L2"]
 MD_TINY = ["empty", "q2", "lst12", "tup12", "L1", "L2"]
 
 
